@@ -52,3 +52,19 @@ def c09_int_str_limit(what, case):
         j = list(forms).index(form)
         col = [row[j] for row in col]
     return bool(col) and all(c in ("raise", "n/a") for c in col)
+
+
+def c03_id_not_a_uri(what, case):
+    """F18: the schema's own root id (the keyword this draft reads) is a string urlsplit rejects, and the only crash is
+    that ValueError"""
+    from urllib.parse import urlsplit
+    S, d = case.get("schema"), case.get("draft")
+    idv = S.get("id" if d in (3, 4) else "$id") if isinstance(S, dict) else None
+    if not isinstance(idv, str):
+        return False
+    try:
+        urlsplit(idv)
+        return False
+    except ValueError:
+        pass
+    return what == "outcome" and bool(case.get("crashes")) and all(c.endswith("crash:ValueError") for c in case["crashes"])
